@@ -175,7 +175,8 @@ class Main(Part):
     def strategy(self, tier):
         @st.composite
         def strat(draw):
-            c = draw(gen.corpus_case(max_extent=3))
+            c = draw(gen.corpus_case(max_extent=3, families=("occ", "occ", "flat", "flat", "flatd", "flatd", "flat2", "affine", "affine",
+                                                             "shape", "cascade", "plain")))
             return {"spec": c["spec"], "family": c.get("family"), "mode": c.get("mode"),
                     "choices": draw(st.lists(st.integers(0, 7), min_size=8, max_size=40))}
         return strat()
@@ -241,8 +242,8 @@ class Observable(Part):
         @st.composite
         def strat(draw):
             # weighted towards dynamic partitioning, flattening and index math: that is where statements sit between loops
-            c = draw(gen.corpus_case(max_extent=3, families=("occ", "occ", "occ", "flat", "flat", "affine", "affine", "shape",
-                                                             "cascade", "plain")))
+            c = draw(gen.corpus_case(max_extent=3, families=("occ", "occ", "occ", "flat", "flat", "flatd", "flatd", "flat2", "affine", "affine",
+                                                             "shape", "cascade", "plain")))
             c["choices"] = draw(st.lists(st.integers(0, 7), min_size=8, max_size=40))
             return c
         return strat()
@@ -262,7 +263,14 @@ class Observable(Part):
         real = fgmod.nx
         fgmod.nx = NxProxy(nx, kahn(case["choices"]))
         try:
-            hf = oracle.compile_or_skip(spec, metrics=False, crash_is_violation=False)
+            hf = X.compile_spec(spec, False)
+        except Exception as e:
+            # every linear extension of the graph must be translatable: the default order was
+            exc = e.exc if isinstance(e, X.Rejected) else e
+            raise Violation("the specification compiles under networkx's order but under the drawn linear extension of the same "
+                            "graph translation fails with %s: %s [%s]" % (type(exc).__name__, str(exc)[:120], X.innermost_teaal_frame(exc)),
+                            sig="extension-untranslatable:" + type(exc).__name__,
+                            details={"yaml": S.to_yaml(spec), "choices": case["choices"]})
         finally:
             fgmod.nx = real
         text = str(hf)
